@@ -50,12 +50,20 @@ type Stats struct {
 	distinct  map[uint64]int32
 	Samples   []interface{}
 	Events    []string // event log of the current run (reset per run)
-	maxSample int
+	Dig       uint64   // behaviour digest of the current run (determinism self-test)
+	// Uncontrolled is set by an engine when the current run met nondeterminism the simulator does not
+	// control (Go's choice among several buffer-ready select cases); such runs are left out of the
+	// determinism comparison and reported with that caveat.
+	Uncontrolled bool
+	maxSample    int
 }
 
 func NewStats() *Stats {
 	return &Stats{Faults: map[string]int64{}, Probes: map[string]int64{}, distinct: map[uint64]int32{}, maxSample: 3}
 }
+
+// D mixes a value that depends on the behaviour of the code under test into the digest.
+func (s *Stats) D(x uint64) { s.Dig = (s.Dig ^ x) * 1099511628211 }
 
 func (s *Stats) Fault(kind string)         { s.Faults[kind]++ }
 func (s *Stats) FaultN(kind string, n int) { s.Faults[kind] += int64(n) }
